@@ -921,6 +921,15 @@ impl<T: Transport, Env: UtpEnvironment> VirtualSocket<T, Env> {
             trace!("just_before_death: no error");
         }
 
+        #[cfg(librqbit_utp_verif)]
+        crate::verif_hooks::emit(&format!(
+            "vsock-end remote={} id={} state={} error={}",
+            self.remote,
+            self.conn_id_send,
+            self.state.name(),
+            error.map(|e| format!("{e:#}")).unwrap_or_else(|| "none".into())
+        ));
+
         if let Some(e) = error {
             self.user_rx.enqueue_error(format!("{e:#}"));
         }
@@ -1592,6 +1601,11 @@ impl<T: Transport, Env: UtpEnvironment> VirtualSocket<T, Env> {
 
 impl<T, E> Drop for VirtualSocket<T, E> {
     fn drop(&mut self) {
+        #[cfg(librqbit_utp_verif)]
+        crate::verif_hooks::emit(&format!(
+            "vsock-drop remote={} id={}",
+            self.remote, self.conn_id_send
+        ));
         METRICS.live_virtual_sockets.decrement(1);
         self.user_tx.mark_vsock_closed();
         self.user_rx.mark_vsock_closed();
